@@ -97,6 +97,24 @@ def reset_on_frame(F, R):
         R.ob('C20.reset-on-frame', 'update_timer|frame=>clears KA_TIMEOUT|READ_TIMEOUT', any('KA_TIMEOUT' in n for n in flat) and any('READ_TIMEOUT' in n for n in flat), 'flags cleared on a decoded frame: %s' % sorted(flat))
         zero = [bi for bi, j, s in u.assigns() if bi in reg and place_fields(s['lhs'])[-1:] == ['read_remains'] and s['rv']['k'] == 'use' and const_val(s['rv']['op']) == 0]
         R.ob('C20.reset-on-frame', 'update_timer|frame=>read_remains=0', bool(zero), 'the partial-frame byte count is not reset when a complete frame was decoded')
+    # starting the read-rate timer re-arms the whole budget, unconditionally
+    starts = [(bi, names) for bi, t, names in flag_calls(u, 'insert') if any('READ_TIMEOUT' in n for n in names)]
+    R.ob('C20.reset-on-frame', 'update_timer|read-timer start site', len(starts) == 1, 'found %d places that set READ_TIMEOUT' % len(starts))
+    for bi, names in starts:
+        tgt = u.blocks[bi]['term'].get('target', bi)
+        rets = u.returns()
+        def assigns_field(name):
+            return {xb for xb, j, s in u.assigns() if place_fields(s['lhs'])[-1:] == [name]}
+        effects = {
+            'read_max_timeout=params.max_timeout': {xb for xb, j, s in u.assigns() if place_fields(s['lhs'])[-1:] == ['read_max_timeout'] and s['rv']['k'] == 'use' and (apath(u, s['rv']['op']) or ('',))[-1] == 'max_timeout'},
+            'read_remains_prev=0': {xb for xb, j, s in u.assigns() if place_fields(s['lhs'])[-1:] == ['read_remains_prev'] and s['rv']['k'] == 'use' and const_val(s['rv']['op']) == 0},
+            'read_remains=decoded.remains': {xb for xb, j, s in u.assigns() if place_fields(s['lhs'])[-1:] == ['read_remains'] and xb in u.reachable(tgt)},
+            'start_timer(params.timeout)': {xb for xb, t in u.calls_to(r'IoRef::start_timer$|::start_timer$') if xb in u.reachable(tgt)},
+        }
+        for what, blocks in sorted(effects.items()):
+            ok = bool(blocks) and all(u.must_pass(blocks, r_, start=tgt) for r_ in rets)
+            R.ob('C20.reset-on-frame', 'update_timer|read-timer start|%s (unconditional)' % what, ok,
+                 'when the frame read timer is started this step can be skipped: budget consumed by an earlier slow frame leaks into the next one and a peer that is fast enough is timed out', u.loc(bi))
     h = F.one(r'^io::DispatcherInner::<P, C, U, E>::handle_timeout$')
     conts = {}
     for bi, t, names in flag_calls(h, 'contains'):
@@ -202,6 +220,16 @@ def client_ping(F, R):
                 succ[sb] = [x for x in succ[sb] if x != no]
             reach = k.reachable(k.succ[pb], succ=succ)
             ok = not (exits & reach)
+        # every iteration that finds the sink open pings: no path from the open edge back to the sleep skips ping()
+        okq = False
+        if pings and opens and sl:
+            pb = pings[0][0]
+            sb, yes, no = opens[0]
+            heads = {x for x, _ in sl}
+            back = k.reachable(yes, avoid={pb})
+            okq = not (heads & back) and not (set(k.returns()) & back)
+        R.ob('C20.client-ping', '%s|every period with an open sink sends PINGREQ (ping not gated by anything else)' % ver, okq,
+             'an iteration of the keep-alive loop can skip ping() although the connection is open (e.g. gated on send credit / back-pressure): an idle client is then timed out by the server')
         R.ob('C20.client-ping', '%s|keepalive task stops only when the sink is closed' % ver, ok,
              'the keep-alive loop can end although the connection is still open (e.g. when ping() is refused with ExpectPayload during a streamed publish): no PINGREQ is ever sent again')
 
